@@ -266,6 +266,8 @@ class Facts:
                     out.append(("notcontains", args[0], args[1]))
             if key == "usize::checked_mul" and name == "Some" and len(args) == 2:
                 out.append(("nomulovf", args[0], args[1]))
+            if key == "core::option::Option::filter" and name == "Some" and len(args) == 2 and args[1][0] == "agg" and args[1][1] == "closure":
+                out.extend(self._option_filter_facts(X, args))
         if X[0] == "site" and name == "Some":
             ev = self.an_call_at(X[1])
             if ev is not None and ev["key"] == "core::iter::traits::iterator::Iterator::next":
@@ -421,6 +423,47 @@ class Facts:
                     ys.append(z)
             return tuple(ys)
         return rec(t)
+
+    def _option_filter_facts(self, X, args):
+        """`opt.filter(pred)` is Some(v): opt was Some(v), and every order fact that holds on all paths of `pred` that can
+        return true holds for v (facts about memory the closure reads are not imported)"""
+        crate = getattr(self.an, "crate", None)
+        if crate is None:
+            return []
+        memo = self.__dict__.setdefault("_of_memo", {})
+        if X in memo:
+            return memo[X]
+        memo[X] = []
+        item = ("field", ("dc", X, "Some"), "0")
+        out = [("variant", args[0], "Some"), mk_eq(item, ("field", ("dc", args[0], "Some"), "0"))]
+        cagg = args[1]
+        try:
+            cl = crate.an(cagg[2])
+            cfx = crate.fx(cagg[2])
+            rets = [ev for ev in cl.events if ev["k"] == "return"]
+            if len(rets) == 1:
+                rb = rets[0]["b"]
+                rv = rets[0]["val"]
+                worlds = [set(w) for w in cfx.worlds_at(rb)]
+                keep = []
+                for w in worlds:
+                    if rv[0] == "phi":
+                        falsy = any(a[0] == "eq" and rv in a[1:] and ("const", "bool", 0) in a[1:] for a in w) or ("false", rv) in w
+                        if falsy:
+                            continue
+                    keep.append(w)
+                if keep:
+                    common = set.intersection(*keep)
+                    for a in common:
+                        if a[0] not in ("lt", "le", "ne"):
+                            continue
+                        tr = tuple(self._closure_to_parent(cagg, x, item) if isinstance(x, tuple) else x for x in a[1:])
+                        if all(x is not None for x in tr):
+                            out.append((a[0],) + tr)
+        except Exception:
+            pass
+        memo[X] = out
+        return out
 
     def pred_atoms(self, cagg, item):
         crate = getattr(self.an, "crate", None)
